@@ -51,6 +51,25 @@ CHECKS = {
         "normal equations within a bound derived from the solver's stopping rules.",
         "Tolerances are k*eps*sum|terms|; no subnormal effects; Nelder-Mead optimum of the likelihood is not itself checked.",
         "DESIGN.md §3 C04"),
+    "C11": (
+        "Hypothesis-generated distances, maps (shuffled rows) and queries vs closed forms through a different code path (expm1/log1p/tanh/atanh) and exact-rational linear interpolation; metamorphic row-order invariance",
+        "Map functions: range, 0->0, inf->1/2, monotone, closed forms, both round trips with a conditioning-aware bound. Genetic maps (both "
+        "classes, 1..5 chromosomes, congruent and non-congruent, cM/M units, auto_group on/off): pairwise distances symmetric / zero diagonal / "
+        "additive / inf across chromosomes, sequential = pairwise, interpolation at own markers exact, exact-rational linear reference between and "
+        "beyond markers, order preservation, absent chromosome -> NaN, invariance under row permutation, interp_gmap rows and group metadata; "
+        "interp_xoprob on phased and unphased matrices equals mapfn of consecutive interpolated distances with 1/2 at chromosome starts.",
+        "Duplicated physical positions excluded (as the property states); negative distances on non-congruent maps are skipped and counted.",
+        "DESIGN.md §3 C11"),
+    "C12": (
+        "Hypothesis-generated crosses vs exact enumeration oracles (two-locus founder-label pedigree enumerator for every scheme and selfing depth; full 2^p gamete enumeration for <= 8 markers)",
+        "Inbred parents (arbitrary phased for dihybrid), 2..6 taxa, 2..8 markers on 1..3 chromosomes with clustered/coincident positions, 1..3 "
+        "traits, nself in {0,1,2,3,5,inf}, mem chunk sizes with boundaries inside chromosomes: every parent tuple of the two/three/four-way and "
+        "dihybrid genetic variance, genic variance and progeny covariance classes through from_algmod / from_gmod / factories equals the oracle "
+        "(written from the mating protocols, not from the library's D-matrix formulas; self-tested on hand-computed values at import) within "
+        "1e-11 x sum|terms|; symmetry in exchangeable parents, zero for identical parents, mem invariance, taxa-permutation equivariance, labels; "
+        "usefulness criterion = parental mean + intensity x sqrt(variance); rprob_filial and cov_D* utilities against enumerated pedigrees.",
+        "Binary allele coding; progeny genic covariance classes cannot be instantiated (abstract) and are not exercised.",
+        "DESIGN.md §3 C12"),
     "C13": (
         "Hypothesis-generated genotype matrices vs loop-formula reference estimators; algebraic laws and summaries on generated symmetric matrices",
         "Generated genotype matrices (phased/unphased, ploidy 1/2/4, 1..12 taxa, 1..25 markers), reference frequencies (None/scalar/array) and "
@@ -129,6 +148,16 @@ CHECKS = {
         "never reappear, limits coincide with the common value when everything is fixed.",
         "Histories are bounded (<= 6 steps, <= 107 taxa, <= 9 loci); diploid binary coding.",
         "DESIGN.md §3 C10"),
+    "C18": (
+        "Hypothesis-generated marker layouts/genotypes/effects vs partition predicate, exact-rational apportionment bound, run-length recomputation, marker-level block sums and brute-force block-boundary doubled haploids; NaN-filling allocator makes unwritten blocks visible",
+        "Layouts with clustered positions, ties, markers on equal-width boundaries and zero-length chromosomes; block totals from the chromosome "
+        "count to the marker count. nhaploblk_chrom (>= 1 per chromosome, sums to total, within one of the length share), haplobin / "
+        "haplobin_bounds (labels non-decreasing, within chromosomes, run-length encoding), four haplotype-matrix implementations (every entry "
+        "written and finite, blocks sum to the copy's additive value), OHV/OPV/GenotypeBuilder values = ploidy x sum of best block values and "
+        ">= every doubled haploid that recombines only at block boundaries (exhaustive when <= 256 choices). Cases in which some equal-width bin "
+        "receives no marker (known finding F-C18-a, signature computed by the harness from the case alone) skip exactly the clauses it breaks.",
+        "While pybrops runs, numpy.empty is replaced by an allocator that fills with NaN / a sentinel so uninitialised blocks cannot pass by luck.",
+        "DESIGN.md §3 C18"),
     "C20": (
         "Exhaustive enumeration (nrep<=2, ngen<=2, 4^4 operator behaviours) + Hypothesis-generated evolve/advance scripts; trace conformance against a value-semantics reference interpreter",
         "Instrumented operators (pure / return-same / mutate-in-place / mutate-then-new) record what they receive; a reference interpreter "
